@@ -127,6 +127,28 @@ def run(res, tier):
             if not na or upd[-1].args[1].get(()) is not na[-1].dest.get(()):
                 fn = mprop.write_cex(res, "roa_wrong_time_%d" % i, p, E, "update_refresh is not given the ROA certificate's notAfter")
                 res.violation("mir:refresh:roa-wrong-time", "the refresh deadline is updated with something other than the ROA certificate's notAfter", fn)
+    # ... and "contributed" is reported faithfully: add_roa returns true iff it pushed at least one origin
+    body = E.prog.find(F, "PubPoint", "add_roa")
+    n_flag = 0
+    for i, p in enumerate(E.explore(body, max_visits=3 if tier == "quick" else 4, nomut=[r"."], pure=[r"Prefix::is_v4$", r"Prefix::len$"])):
+        if p.kind != "return":
+            continue
+        ret = p.ret.get(())
+        pushed = any(e.kind == "call" and re.search(r"Vec::<.*>::push$|Vec::push$", e.name) for e in p.events)
+        if ret is None or not (mir.is_z(ret) or isinstance(ret, bool)):
+            res.inconclusive.append("add_roa path %d: return value is not a Boolean" % i)
+            continue
+        n_flag += 1
+        r = ret if mir.is_z(ret) else z3.BoolVal(ret)
+        # only the unsafe direction: origins were added but the caller is told nothing was (an over-cautious true is harmless)
+        if pushed and E.feasible(p.cond, z3.Not(r)):
+            fn = mprop.write_cex(res, "add_roa_flag_%d" % i, p, E, "add_roa %s an origin on this path but can return %s" % ("pushes" if pushed else "pushes no", not pushed))
+            res.violation("mir:refresh:roa-contribution-flag-wrong", "add_roa's 'contributed' result is wrong (%s): process_roa lowers the refresh "
+                          "deadline to the ROA's notAfter exactly when it is true" % ("origins were added but it may return false" if pushed else "nothing was added but it may return true"), fn)
+            break
+    total += n_flag
+    if not n_flag:
+        res.inconclusive.append("vacuity: add_roa has no returning path with a Boolean result")
     for meth, add in (("process_aspa", r"PubPoint::add_aspa$"), ("process_router_cert", r"PubPoint::add_router_key$")):
         body = E.prog.find(F, "PubPointProcessor", meth, trait="ProcessPubPoint")
         for i, p in enumerate(E.explore(body, max_visits=2, nomut=[r"."], pure=[r"Validity::not_after$"])):
